@@ -61,7 +61,7 @@ structure Mat where
   nRow : Nat
   nCol : Nat
   rows : List (List Rat)
-deriving Repr
+deriving Repr, DecidableEq
 
 namespace Mat
 
